@@ -140,6 +140,7 @@ type Harness struct {
 	Run    func(c *Case, e *Env) Outcome
 	Shrink func(c *Case) []Case // simpler variants of the workload, most aggressive first
 	Init   func(j *Job)         // once per worker process
+	GenI   func(i int, r *Rand, tier string) Case // instead of Gen: the i-th case of an enumerated space
 }
 
 var harnesses = map[string]*Harness{}
@@ -314,7 +315,12 @@ func TestWorker(t *testing.T) {
 			i := job.From + k*job.Stride
 			seed := mix(mix(job.Seed0, strHash(job.Prop)), uint64(i))
 			r := NewRand(seed)
-			c := h.Gen(r, job.Tier)
+			var c Case
+			if h.GenI != nil {
+				c = h.GenI(i, r, job.Tier) // enumerating harness: case i of a finite space
+			} else {
+				c = h.Gen(r, job.Tier)
+			}
 			c.H = h.Name
 			c.Sched.Seed = r.U64()
 			rec := runCase(t, &job, h, &c, i, seed, job.Full)
